@@ -3,7 +3,7 @@ import ast
 
 from ..astx import (calls_in, dotted, norm, src, iter_nodes, assigned_targets, assigned_names,
                     const_value, is_const, parent_chain, aliases_of)
-from ..lib import (raises, call_arg, relation, truth, other, cmp_views, core, holds_region, conditions, path_tests, entails_empty, paths_entail_empty, eval_conditions, relation_tests, atom_key, expand_condition, mode_mismatch_conditions, is_bytes_mode_text_guard, cfg_nodes_with_call, node_calls, returns, stmt_assigns_attr, callee_last,
+from ..lib import (raises, call_arg, relation, truth, other, cmp_views, core, holds_region, conditions, found_test, found_tests, path_tests, entails_empty, paths_entail_empty, eval_conditions, relation_tests, atom_key, expand_condition, mode_mismatch_conditions, is_bytes_mode_text_guard, cfg_nodes_with_call, node_calls, returns, stmt_assigns_attr, callee_last,
                    is_name, is_self_attr, node_roots, guard_region)
 from ..linear import ctext
 from ..loader import AnalysisError
